@@ -334,9 +334,11 @@ def io_cases(seed, n, kinds=None):
         big = kinds[i % len(kinds)] in ("update_newest_big", "insert_after_failed_update_big")
         if big:
             auto, n0 = True, r.choice([130, 131, 140])      # a database past 128 rows, index valid
-        pts = g.points_batch(n0, in_order=True if big else r.random() < 0.7)
+        if kinds[i % len(kinds)] == "insert_newer_unsorted":
+            auto = True
+        pts = g.points_batch(n0, in_order=True if (big or kinds[i % len(kinds)] == "insert_newer_unsorted") else r.random() < 0.7)
         hist = [("insert", pts, None, "multiple")]
-        for _ in range(0 if big else r.choice([0, 1, 2])):
+        for _ in range(0 if (big or kinds[i % len(kinds)] == "insert_newer_unsorted") else r.choice([0, 1, 2])):
             hist.append(r.choice([g.read_op(), ("get", g.query(), None), ("remove", g.query(), g.mfilter()), ("insert", [g.point()], None)]))
         kind = kinds[i % len(kinds)]
         ns = sorted(p["fields"]["n"] for p in pts if "n" in p["fields"])       # the selective ids actually stored by the first batch
@@ -349,7 +351,7 @@ def io_cases(seed, n, kinds=None):
                 p_["fields"]["a"] = 2 if q_ == len(pts) // 2 else 1
                 p_["tags"]["pad"] = "p" * 60
             hist.append(("update_all", {"fields": ("call", 3), "tags": ("static", {"a": "zz"})}))
-        elif big:
+        elif big or kinds[i % len(kinds)] == "insert_newer_unsorted":
             pass
         elif i % 4 == 1:
             # the previous operations may leave rows that are logically stored but (if the library is wrong) not yet in the file
@@ -363,6 +365,12 @@ def io_cases(seed, n, kinds=None):
             op = ("insert", [g.point()], r.choice([None, "m1"]))
         elif kind == "insert_multiple":
             op = ("insert", [g.point() for _ in range(r.choice([2, 3]))], None, "multiple")
+        elif kind == "insert_newer_unsorted":
+            # a batch every point of which is newer than everything stored, handed over in an order that is NOT ascending in time: the rows must
+            # reach the file in the order given (a crash leaves a prefix of the batch AS GIVEN)
+            newest = max(p["time"] for p in pts)
+            ps = [g.point(newest + d * 1000000) for d in r.choice([[3, 1, 2], [2, 4, 1, 3], [5, 5, 1], [9, 1]])]
+            op = ("insert", ps, None, "multiple")
         elif kind == "insert_big_rows":
             # a batch whose text is well over 64 KiB in a handful of rows: whatever is written in blocks must still end on row boundaries
             ps = []
